@@ -3,6 +3,7 @@
 #include <algorithm>
 #include <cstdio>
 #include <cstring>
+#include <memory>
 #include <sstream>
 #include <unordered_map>
 
@@ -85,8 +86,8 @@ static void take_snap(const Position& p, Snap& s, bool heavy)
         Move* e = generate_moves(p, p.color(), buf);
         s.moves.assign(buf, e);
         std::sort(s.moves.begin(), s.moves.end());
-        PositionScorer fresh;
-        s.eval = fresh.score(p);
+        auto fresh = std::make_unique<PositionScorer>();  // heap: zero-filled by the harness's operator new, so that even an
+        s.eval = fresh->score(p);                          // evaluator that forgets to initialise a member is deterministic
         s.rep = p.is_repeated();
         s.three = p.threefold_repetition();
         s.r50 = p.rule50();
@@ -199,6 +200,33 @@ static void c04_check(World* w, const Position& p, const char* where)
         return;
     }
     if (w->cfg.zobrist_mode == 2) return;  // keys collide on purpose
+    // "positions that differ in any of the four components get different keys": one-component perturbations
+    if ((m->node_counter & 7) == 0 || where[0] == 'a')
+    {
+        std::istringstream is(fen);
+        std::string pl, sd, ca, ep, hm, fm;
+        is >> pl >> sd >> ca >> ep >> hm >> fm;
+        if (ep != "-")
+        {
+            Position q(pl + " " + sd + " " + ca + " - " + hm + " " + fm);
+            w->counters["c04_perturb_ep"]++;
+            if (q.hash() == p.hash()) w->violation("C04", "en-passant-square-not-in-key", fen + " has the same key as the position without the en-passant square");
+        }
+        if (ca != "-")
+        {
+            std::string ca2 = ca.substr(1);
+            if (ca2.empty()) ca2 = "-";
+            Position q(pl + " " + sd + " " + ca2 + " " + ep + " " + hm + " " + fm);
+            w->counters["c04_perturb_castling"]++;
+            if (q.hash() == p.hash()) w->violation("C04", "castling-right-not-in-key", fen + " has the same key with castling rights " + ca2);
+        }
+        if (ep == "-" && !p.is_in_check(p.color()))
+        {
+            Position q(pl + " " + (sd == "w" ? "b" : "w") + " " + ca + " - " + hm + " " + fm);
+            w->counters["c04_perturb_side"]++;
+            if (q.hash() == p.hash()) w->violation("C04", "side-to-move-not-in-key", fen + " has the same key with the other side to move");
+        }
+    }
     std::string k4 = key4_of_fen(fen);
     auto it = m->key_of.find(k4);
     if (it == m->key_of.end())
@@ -248,15 +276,14 @@ static void c07_compare(World* w, const Position& p, ref::Board& mb, int earlier
 {
     w->counters["c07_checks"]++;
     std::string ek = key4_of_fen(p.fen());
-    if (ek != mb.key4())
-    {
-        w->counters["c07_model_desync"]++;
-        return;
-    }
+    // the engine's idea of the position differs from what the rules give for this move list (that alone would be C02's
+    // business); the predicates are still compared against the rules: the property is about the answers
+    bool desync = ek != mb.key4();
+    if (desync) w->counters["c07_model_desync"]++;
     auto bad = [&](const char* pred, bool eng, bool model) {
         w->violation("C07", std::string("predicate-") + pred,
                      std::string(where) + ": " + pred + " engine=" + (eng ? "true" : "false") + " rules=" + (model ? "true" : "false") + " at " + mb.fen() +
-                         " earlier_occurrences=" + std::to_string(earlier));
+                         " earlier_occurrences=" + std::to_string(earlier) + (desync ? " (engine's own position: " + ek + ")" : ""));
     };
     bool chk = mb.in_check(mb.side);
     if (p.is_in_check(p.color()) != chk) bad("is_in_check", p.is_in_check(p.color()), chk);
@@ -482,8 +509,8 @@ void World::run_driver_op(const Op& op)
             Value a = uci->scorer.score(p);
             counters["c14_evals_on_session_evaluator"]++;
             if (name == "c14eval") continue;
-            PositionScorer fresh;
-            Value b = fresh.score(p);
+            auto fresh = std::make_unique<PositionScorer>();
+            Value b = fresh->score(p);
             counters["c14_probes"]++;
             if (p.pieces(WHITE, PAWN) == 0 && p.pieces(BLACK, PAWN) == 0) counters["c14_pawnless_probes"]++;
             if (a != b)
